@@ -92,6 +92,18 @@ Definition site_ok (regs : list reg) (s : site) : bool := forallb (site_ok_for s
 Definition site_owned (regs : list reg) (s : site) : bool :=
   existsb (fun r => match site_shift s r with Some _ => true | None => false end) regs.
 
+(* constant indexes X[k] into OTHER slices of the builtins and router tests (words[0], states[0],
+   possibilities[0] ...): the len(X) guards around the site must imply k < len(X) for EVERY length (a registration
+   without bounds: 0 .. unbounded).  Two sites are justified otherwise:
+     HasPattern:matches                regexp.FindStringSubmatch returns nil or at least the whole match; the site is
+                                       under `matches != nil` (a fact about the regexp library, not about len)
+     hasIntent:classification.Intents  guarded by `len(intents) > 0` through the alias intents := classification.Intents *)
+Definition local_sites_justified : list string := ["HasPattern:matches"; "hasIntent:classification.Intents"]%string.
+
+Definition local_site_ok (s : site) : bool :=
+  existsb (String.eqb (s_fn s)) local_sites_justified
+  || site_ok_for s (Reg "" "" 0 (-1) 0 (s_fn s)).
+
 (* non-constant indexes into the argument slice: allowed only in functions whose loop is modelled and proved
    (Object: pairs[i], pairs[i+1] — proofs/ExEvalProofs.v object_pairs_ok) *)
 Definition dynamic_allowed : list string := ["Object"%string].
